@@ -2,6 +2,7 @@
 EXTENDS Verify
 NamesQuick    == {"a", "h"}
 NamesThorough == {"a", "ab", "h"}
+NamesPair     == {"a", "ab"}          \* look-alike pair (string prefix, not path prefix)
 LastsNone     == {NoLast}
 LastsAll      == {NoLast, 40, 50, 60}
 KeepBoth      == {FALSE, TRUE}
